@@ -29,6 +29,24 @@ while d and not demodir:
     if demodir: break
     d = os.path.dirname(d)
 if not demodir:
+    # search the module of the patched file for a directory whose package has the demo's name; prefer one that the
+    # notes mention
+    mod = files[0].split('/')[0]
+    cands = []
+    for root, dirs, fs in os.walk(os.path.join(wt, mod)):
+        for f in fs:
+            if f.endswith('.go') and not f.endswith('_test.go'):
+                m = re.search(r'^package\s+(\w+)', open(os.path.join(root, f)).read(), re.M)
+                if m and m.group(1) == base:
+                    cands.append(os.path.relpath(root, wt))
+                break
+    notes_txt = open(f"{src}/notes.md").read() if os.path.exists(f"{src}/notes.md") else ""
+    pref = [c for c in cands if c in notes_txt or c.split('/', 1)[-1] in notes_txt]
+    if pref:
+        demodir = sorted(pref, key=len)[-1]
+    elif len(cands) >= 1:
+        demodir = cands[0]
+if not demodir:
     print("cannot place demo"); sys.exit(2)
 module = files[0].split('/')[0]
 tests = re.findall(r'^func (Test\w+)\(', demo, re.M)
